@@ -58,6 +58,34 @@ def direct_trace(rng, n_epochs=3, max_len=12):
     return {"hdr": ghdr(target, gamma, kappa, t0, kind="direct"), "ev": ev}
 
 
+def extreme_direct_traces():
+    """Long runs of acceptances (or rejections) within one adaptation epoch: the step-size iterate leaves the single
+    precision range (+inf / 0) while error sum and averaged logarithm follow the recurrence; the epoch's end installs the
+    finite averaged step size.  Deterministic sequences."""
+    out = []
+    for target, gamma, t0, eps0, acc_seq in (
+            (0.234, 0.05, 10, 1.0, [1.0] * 70),                       # overflow after ~46 acceptances
+            (0.8, 0.05, 10, 1.0, [0.0] * 75),                         # underflow after ~50 rejections
+            (0.234, 0.05, 10, 25.0, [1.0] * 50 + [0.0] * 30),         # out of range and back
+            (0.5, 0.01, 3, 0.1, [0.9] * 40 + [1.0] * 20),             # same state region, acceptance 0.9 vs 1.0
+            (0.5, 0.01, 3, 0.1, [1.0] * 40 + [0.9] * 20)):
+        ks = RWKernelState(step_size=jnp.float32(eps0))
+        ev = [{"ev": "init_state", "post": tup(ks)}]
+        pre = tup(ks)
+        da_init(ks)
+        ev.append({"ev": "start_epoch", "pre": pre, "post": tup(ks), "etype": 1})
+        for t, a in enumerate(acc_seq):
+            a = jnp.float32(a)
+            pre = tup(ks)
+            da_step(ks, a, t, target, gamma, 0.75, t0)
+            ev.append({"ev": "transition", "pre": pre, "post": tup(ks), "acc": fstr(a), "tie": t, "etype": 1})
+        pre = tup(ks)
+        da_finalize(ks)
+        ev.append({"ev": "end_epoch", "pre": pre, "post": tup(ks), "etype": 1})
+        out.append({"hdr": ghdr(target, gamma, 0.75, t0, kind="direct_extreme"), "ev": ev})
+    return out
+
+
 # ---- engine-level ---------------------------------------------------------------------
 
 def logp(s):
